@@ -55,12 +55,12 @@ theorem index_conv_value (k : IKind) (v : Int) (len : Nat)
 
 /-- whole `a[i]` / `a[i] = x` on a slice, array or pointer to array with a variable index of any
     integer kind: element `i` if 0 <= i < len, else a run-time panic — never a compile error -/
-theorem index_outcome_spec (c : Cont) (len : Nat) (w : Bool) (a : Arg)
-    (hc : c = .slice ∨ c = .array ∨ c = .parray)
+theorem index_outcome_spec (ck : Bool) (c : Cont) (len : Nat) (w : Bool) (a : Arg)
+    (hc : c = .slice ∨ c = .array ∨ c = .parray) (hv : a.const = false)
     (hk : a.kind ≠ .untyped) (hf : a.kind.fits a.val) (hl : (len : Int) ≤ maxInt) :
-    indexOutcome true c len w a = if 0 ≤ a.val ∧ a.val < len then .ok a.val.toNat else .panic := by
-  have hconv : indexConv true a = some (wrapInt a.val) := by
-    simp [indexConv, indexToInt_typed a hk]
+    indexOutcome ⟨true, ck⟩ c len w a = if 0 ≤ a.val ∧ a.val < len then .ok a.val.toNat else .panic := by
+  have hconv : indexConv ⟨true, ck⟩ a = some (wrapInt a.val) := by
+    simp [indexConv, indexToInt_typed ck a hk hv]
   unfold indexOutcome
   rw [hconv]
   by_cases h : 0 ≤ a.val ∧ a.val < len
@@ -69,6 +69,38 @@ theorem index_outcome_spec (c : Cont) (len : Nat) (w : Bool) (a : Arg)
   · have := (index_conv_preserves_panic a.kind a.val len hk hf hl).2 h
     rcases hc with rfl | rfl | rfl <;> simp [this, h]
 
+/-- a typed CONSTANT index (current code: `Comp.convert` checks representability, as the Go compiler
+    does): a value that is not representable as `int` is a compile error; otherwise element `i` if
+    0 <= i < len, else a run-time panic (Go rejects those too: the harness only demands "no value"). -/
+theorem index_outcome_const_spec (c : Cont) (len : Nat) (w : Bool) (a : Arg)
+    (hc : c = .slice ∨ c = .array ∨ c = .parray) (hv : a.const = true)
+    (hk : a.kind ≠ .untyped) :
+    indexOutcome ⟨true, true⟩ c len w a =
+      if minInt ≤ a.val ∧ a.val ≤ maxInt then
+        (if 0 ≤ a.val ∧ a.val < len then .ok a.val.toNat else .panic)
+      else .cerr := by
+  have hconv : indexConv ⟨true, true⟩ a = if minInt ≤ a.val ∧ a.val ≤ maxInt then some a.val else none := by
+    simp [indexConv, indexToInt_const a hk hv]
+  unfold indexOutcome
+  rw [hconv]
+  by_cases hr : minInt ≤ a.val ∧ a.val ≤ maxInt
+  · simp only [hr, and_self, if_true]
+    by_cases h : 0 ≤ a.val ∧ a.val < len
+    · rcases hc with rfl | rfl | rfl <;> simp [indexRun, h]
+    · rcases hc with rfl | rfl | rfl <;> simp [indexRun, h]
+  · simp [hr]
+
+/-- in particular a uint64 constant above MaxInt64 never reaches run time -/
+theorem index_const_unrepresentable_rejected (c : Cont) (len : Nat) (w : Bool) (a : Arg)
+    (hv : a.const = true) (hbig : maxInt < a.val) :
+    indexOutcome ⟨true, true⟩ c len w a = .cerr := by
+  have : indexConv ⟨true, true⟩ a = none := by
+    unfold indexConv indexToInt
+    have : ¬ (minInt ≤ a.val ∧ a.val ≤ maxInt) := by omega
+    cases hk : a.kind <;> simp [hv, this]
+  unfold indexOutcome
+  rw [this]
+
 /-! ## slice expressions -/
 
 /-- a run-time bound: a variable of some integer kind holding a value of that kind -/
@@ -76,12 +108,13 @@ def VarArg (a : Arg) : Prop := a.const = false ∧ a.kind ≠ .untyped ∧ a.kin
 
 def OVar (o : Option Arg) : Prop := ∀ a, o = some a → VarArg a
 
-theorem sliceIndexConv_var {a : Arg} (h : VarArg a) : sliceIndexConv true a = some (wrapInt a.val) := by
+theorem sliceIndexConv_var {ck : Bool} {a : Arg} (h : VarArg a) :
+    sliceIndexConv ⟨true, ck⟩ a = some (wrapInt a.val) := by
   obtain ⟨hc, hk, _⟩ := h
-  simp [sliceIndexConv, indexConv, indexToInt_typed a hk, hc]
+  simp [sliceIndexConv, indexConv, indexToInt_typed ck a hk hc, hc]
 
-theorem optConv_var {o : Option Arg} (h : OVar o) :
-    optConv true o = some (o.map (fun a => wrapInt a.val)) := by
+theorem optConv_var {ck : Bool} {o : Option Arg} (h : OVar o) :
+    optConv ⟨true, ck⟩ o = some (o.map (fun a => wrapInt a.val)) := by
   cases o with
   | none => rfl
   | some a => simp [optConv, sliceIndexConv_var (h a rfl)]
@@ -110,13 +143,13 @@ theorem boundWrap_eq {o : Option Arg} {d : Int} (hd0 : 0 ≤ d) (hd : d ≤ 9223
     arrays, pointers to arrays and strings: panics iff !(0 <= lo <= hi <= cap) where omitted lo = 0,
     omitted hi = len, cap = cap(a) for slices and len(a) otherwise; else offset lo, length hi-lo,
     capacity cap-lo. -/
-theorem slice_bounds_spec2 (c : Cont) (len cap : Nat) (lo hi : Option Arg)
+theorem slice_bounds_spec2 (ck : Bool) (c : Cont) (len cap : Nat) (lo hi : Option Arg)
     (hc : c ≠ .nilparray) (hlo : OVar lo) (hhi : OVar hi) (hlc : len ≤ cap)
     (hlen : (len : Int) ≤ maxInt) (hcap : (cap : Int) ≤ maxInt) :
     let L := boundVal lo 0
     let H := boundVal hi len
     let K : Int := capOf c len cap
-    sliceOutcome true ⟨c, len, cap, lo, hi, none, false⟩ =
+    sliceOutcome ⟨true, ck⟩ ⟨c, len, cap, lo, hi, none, false⟩ =
       if 0 ≤ L ∧ L ≤ H ∧ H ≤ K then .ok ⟨L.toNat, (H - L).toNat, (K - L).toNat⟩ else .panic := by
   intro L H K
   have hM : maxInt = 9223372036854775807 := rfl
@@ -168,12 +201,12 @@ theorem slice_bounds_spec2 (c : Cont) (len cap : Nat) (lo hi : Option Arg)
 
 /-- **3-index slice expressions** `a[lo:hi:max]` (slices, arrays, pointers to arrays): panics iff
     !(0 <= lo <= hi <= max <= cap); else offset lo, length hi-lo, capacity max-lo. -/
-theorem slice_bounds_spec3 (c : Cont) (len cap : Nat) (lo : Option Arg) (hi mx : Arg)
+theorem slice_bounds_spec3 (ck : Bool) (c : Cont) (len cap : Nat) (lo : Option Arg) (hi mx : Arg)
     (hc : c = .slice ∨ c = .array ∨ c = .parray) (hlo : OVar lo) (hhi : VarArg hi) (hmx : VarArg mx)
     (hlen : (len : Int) ≤ maxInt) (hcap : (cap : Int) ≤ maxInt) :
     let L := boundVal lo 0
     let K : Int := capOf c len cap
-    sliceOutcome true ⟨c, len, cap, lo, some hi, some mx, true⟩ =
+    sliceOutcome ⟨true, ck⟩ ⟨c, len, cap, lo, some hi, some mx, true⟩ =
       if 0 ≤ L ∧ L ≤ hi.val ∧ hi.val ≤ mx.val ∧ mx.val ≤ K
       then .ok ⟨L.toNat, (hi.val - L).toNat, (mx.val - L).toNat⟩ else .panic := by
   intro L K
@@ -224,19 +257,20 @@ theorem slice_bounds_spec3 (c : Cont) (len cap : Nat) (lo : Option Arg) (hi mx :
     simp [hncs]
 
 /-- slicing through a nil pointer to array panics whatever the bounds (as in Go) -/
-theorem slice_nil_pointer_panics (len cap : Nat) (lo hi : Option Arg) (hlo : OVar lo) (hhi : OVar hi) :
-    sliceOutcome true ⟨.nilparray, len, cap, lo, hi, none, false⟩ = .panic := by
+theorem slice_nil_pointer_panics (ck : Bool) (len cap : Nat) (lo hi : Option Arg) (hlo : OVar lo) (hhi : OVar hi) :
+    sliceOutcome ⟨true, ck⟩ ⟨.nilparray, len, cap, lo, hi, none, false⟩ = .panic := by
   unfold sliceOutcome
   simp only [optConv_var hlo, optConv_var hhi]
   simp [optConv, sliceRun]
 
 /-- a negative constant bound is rejected at compile time -/
-theorem slice_const_negative_rejected (conv : Bool) (c : Cont) (len cap : Nat) (a : Arg) (hi mx : Option Arg) (three : Bool)
+theorem slice_const_negative_rejected (conv : Conv) (c : Cont) (len cap : Nat) (a : Arg) (hi mx : Option Arg) (three : Bool)
     (hc : a.const = true) (hu : a.kind = .untyped) (hneg : a.val < 0) :
     sliceOutcome conv ⟨c, len, cap, some a, hi, mx, three⟩ = .cerr := by
   have : sliceIndexConv conv a = none := by
+    obtain ⟨cv, ck⟩ := conv
     unfold sliceIndexConv indexConv indexToInt indexToIntStrict
-    cases conv <;> simp [hu] <;> split <;> simp_all
+    cases cv <;> simp [hu] <;> split <;> simp_all
   unfold sliceOutcome
   simp [optConv, this]
 
@@ -560,15 +594,21 @@ namespace Composite
 example : IKind.uint64.fits 18446744073709551615 ∧ IKind.uint64 ≠ .untyped := by decide
 example : wrapInt 18446744073709551615 = -1 ∧ indexRun 3 (wrapInt 18446744073709551615) = none := by decide
 example : indexRun 3 (wrapInt 2) = some 2 := by decide
-example : indexOutcome true .parray 3 true ⟨.uint8, false, 2⟩ = .ok 2 := by decide
-example : indexOutcome true .slice 3 false ⟨.uint64, false, 9223372036854775809⟩ = .panic := by decide
+example : indexOutcome ⟨true, true⟩ .parray 3 true ⟨.uint8, false, 2⟩ = .ok 2 := by decide
+example : indexOutcome ⟨true, true⟩ .slice 3 false ⟨.uint64, false, 9223372036854775809⟩ = .panic := by decide
+-- the same value as a typed constant: rejected at compile time (wrapped and panicking before 457e90b)
+example : indexOutcome ⟨true, true⟩ .slice 3 false ⟨.uint64, true, 9223372036854775809⟩ = .cerr := by decide
+example : indexOutcome ⟨true, false⟩ .slice 3 false ⟨.uint64, true, 9223372036854775809⟩ = .panic := by decide
+example : indexOutcome ⟨true, true⟩ .array 3 true ⟨.int64, true, -9223372036854775808⟩ = .panic := by decide
+example : indexOutcome ⟨true, true⟩ .array 3 false ⟨.uint8, true, 2⟩ = .ok 2 := by decide
 -- run-time bounds of mixed kinds
 example : VarArg ⟨.uint8, false, 1⟩ ∧ VarArg ⟨.int64, false, 4⟩ := by unfold VarArg; decide
-example : sliceOutcome true ⟨.slice, 2, 5, some ⟨.uint8, false, 1⟩, some ⟨.int64, false, 4⟩, none, false⟩ = .ok ⟨1, 3, 4⟩ := by decide
-example : sliceOutcome true ⟨.slice, 2, 5, some ⟨.uint8, false, 3⟩, none, none, false⟩ = .panic := by decide
-example : sliceOutcome true ⟨.array, 4, 4, some ⟨.int, false, 1⟩, some ⟨.uint16, false, 2⟩, some ⟨.uint64, false, 3⟩, true⟩ = .ok ⟨1, 1, 2⟩ := by decide
-example : sliceOutcome true ⟨.str, 3, 3, none, some ⟨.uint64, false, 18446744073709551615⟩, none, false⟩ = .panic := by decide
-example : sliceOutcome true ⟨.cstr, 3, 3, some ⟨.untyped, true, -1⟩, none, none, false⟩ = .cerr := by decide
+example : sliceOutcome ⟨true, true⟩ ⟨.slice, 2, 5, some ⟨.uint8, false, 1⟩, some ⟨.int64, false, 4⟩, none, false⟩ = .ok ⟨1, 3, 4⟩ := by decide
+example : sliceOutcome ⟨true, true⟩ ⟨.slice, 2, 5, some ⟨.uint8, false, 3⟩, none, none, false⟩ = .panic := by decide
+example : sliceOutcome ⟨true, true⟩ ⟨.array, 4, 4, some ⟨.int, false, 1⟩, some ⟨.uint16, false, 2⟩, some ⟨.uint64, false, 3⟩, true⟩ = .ok ⟨1, 1, 2⟩ := by decide
+example : sliceOutcome ⟨true, true⟩ ⟨.str, 3, 3, none, some ⟨.uint64, false, 18446744073709551615⟩, none, false⟩ = .panic := by decide
+example : sliceOutcome ⟨true, true⟩ ⟨.cstr, 3, 3, some ⟨.untyped, true, -1⟩, none, none, false⟩ = .cerr := by decide
+example : sliceOutcome ⟨true, true⟩ ⟨.slice, 2, 5, some ⟨.uint64, true, 18446744073709551615⟩, none, none, false⟩ = .cerr := by decide
 -- literals: keys, gaps, typed keys; duplicates and out-of-bounds rejected
 example : litElements none [.keyed .untyped 2, .pos, .keyed .uint8 0, .pos] = .ok (4, [2, 3, 0, 1]) := by rfl
 example : litValue none [.keyed .untyped 2, .pos, .keyed .uint8 0] [100, 101, 102] = .ok [102, 0, 100, 101] := by rfl
